@@ -70,6 +70,10 @@ GoodItems == { Call("sub", <<I(0), I(1), I(2)>>), Call("sub", <<I(5), I(4), I(7)
            CallK("tsub", <<Kw("phi", Bin("+", Par("th"), I(1))), Kw("th", FL(1, 2))>>, <<I(4), I(1)>>),
            CallK("tsub", <<Kw("phi", FL(1, 4)), Kw("th", I(1))>>, <<I(2), I(3)>>),
            CallK("tsub", <<Kw("th", FL(1, 2)), Kw("phi", Bin("*", Var("v"), I(3)))>>, <<I(1), I(0)>>),
+           \* the same template applied with values that differ only slightly (small negative integers, an integer and the equal float)
+           CallK("tsub", <<Kw("phi", [t |-> "neg", a |-> I(1)]), Kw("th", I(1))>>, <<I(0), I(2)>>),
+           CallK("tsub", <<Kw("phi", [t |-> "neg", a |-> I(2)]), Kw("th", I(1))>>, <<I(2), I(0)>>),
+           CallK("tsub", <<Kw("phi", [t |-> "neg", a |-> I(2)]), Kw("th", FL(1, 1))>>, <<I(1), I(3)>>),
            Call("outer", <<I(6), I(7)>>), Call("inner", <<I(1), I(0)>>), Call("util", <<I(3), I(2)>>),
            Stmt("G", TRUE, <<I(1)>>, <<>>, <<I(0)>>, "none"), [t |-> "var", ty |-> "float", x |-> "v", e |-> FL(1, 2)],
            \* calls inside a loop body, with keyword values and modes that depend on the loop variable
